@@ -387,7 +387,11 @@ class Runner:
         ex = Explorer(assumptions, self.max_paths)
         self.snapshot = None
         if sc.prefill and sc.hasher != 'symbolic' and not sc.unprotected:
-            self.snapshot = self.build_snapshot(env)
+            try:
+                self.snapshot = self.build_snapshot(env)
+            except (Mismatch, Violation, Unwind):
+                # a discrepancy already in the concrete prefix: no snapshot, the ordinary path execution reports it as a finding
+                self.snapshot = None
 
         def scenario(ctx: PathCtx):
             return self.one_path(ctx, env, hfn)
